@@ -30,7 +30,7 @@ ASSUMPTIONS = ["mod_positive is judged for positive divisors only (its documenta
 
 
 def budget(tier):
-    return {"examples": 480 if tier == "quick" else 9000, "wall_s": 140 if tier == "quick" else 1700}
+    return {"examples": 480 if tier == "quick" else 9000, "wall_s": 140 if tier == "quick" else 900}
 
 
 LIB = {
